@@ -260,6 +260,27 @@ func runC20(c *core.Case) {
 		if n1+n2 > 0 {
 			c.NonTrivial()
 		}
+		if r.P(0.03) {
+			// long lists (above typical pooling thresholds) right after a call whose input contained NaN: NaN keys cannot be
+			// deleted from a map, so scratch state reused across calls would leak them. The NaN call itself is not judged.
+			big1, big2 := make([]float64, 700), make([]float64, 650)
+			for i := range big1 {
+				big1[i] = float64(r.Range(-300, 300)) / 8
+			}
+			for i := range big2 {
+				big2[i] = float64(r.Range(-300, 300)) / 8
+			}
+			withNaN := append(append([]float64{}, big1...), math.NaN(), math.NaN())
+			common.Unique(withNaN)
+			common.Union(withNaN, big2)
+			common.Difference(withNaN, big2)
+			common.Intersect(withNaN, big2)
+			c.Calls(4)
+			c.Tag("long-lists-after-nan-call")
+			if !setLaws(c, "[]float64(700)", big1, big2) {
+				return
+			}
+		}
 		_ = setLaws(c, "[]int", li1, li2) && setLaws(c, "[]int64", l641, l642) && setLaws(c, "[]string", ls1, ls2) &&
 			setLaws(c, "[]float64", lf1, lf2) && setLaws(c, "[]struct", lt1, lt2)
 	case 1: // Max / Min
@@ -446,6 +467,35 @@ func runC20(c *core.Case) {
 			return m
 		}
 		A, B, C := gm(), gm(), gm()
+		// structured operands: identity, diagonal, unit triangular (shear), permutation, rotation about z
+		st := func() spatial.Matrix3 {
+			p, q, t := float64(r.Range(-4, 4)), float64(r.Range(-4, 4)), float64(r.Range(-4, 4))
+			switch r.Intn(6) {
+			case 0:
+				return spatial.NewUnitMatrix3()
+			case 1:
+				return spatial.NewMatrix3(p, 0, 0, 0, q, 0, 0, 0, t)
+			case 2:
+				return spatial.NewMatrix3(1, 0, 0, p, 1, 0, q, t, 1) // unit lower triangular
+			case 3:
+				return spatial.NewMatrix3(1, p, q, 0, 1, t, 0, 0, 1) // unit upper triangular
+			case 4:
+				return spatial.NewMatrix3(0, 1, 0, 0, 0, 1, 1, 0, 0)
+			}
+			a := r.Uniform(-3, 3)
+			return spatial.NewMatrix3(math.Cos(a), -math.Sin(a), 0, math.Sin(a), math.Cos(a), 0, 0, 0, 1)
+		}
+		if r.P(0.5) {
+			switch r.Intn(3) {
+			case 0:
+				A = st()
+			case 1:
+				B = st()
+			default:
+				A, B = st(), st()
+			}
+			c.Tag("structured-matrices")
+		}
 		v := genVec(r)
 		c.NonTrivial()
 		c.Desc = func() any { return map[string]any{"A": A, "B": B, "C": C, "v": v} }
